@@ -546,12 +546,43 @@ func (g *gen) lexerStrings() {
 	acc := stringArgs(sn, "accept", 0)
 	run := stringArgs(sn, "acceptRun", 0)
 	wantAcc := []string{"+-", ".", ".", "e", "+-"}
-	wantRun := []string{"0x", "$hexDigits", "$decDigits", "$decDigits", "$decDigits"}
+	wantRun := []string{"$hexDigits", "$decDigits", "$decDigits", "$decDigits"}
 	if strings.Join(acc, "|") != strings.Join(wantAcc, "|") || strings.Join(run, "|") != strings.Join(wantRun, "|") {
 		g.fail("scanNumber: accept/acceptRun sets are not the modelled ones (accept %q, acceptRun %q)", acc, run)
 	}
+	// the hexadecimal prefix is tested with l.input[l.pos:l.pos+2] == "0x" and skipped with l.pos += 2
+	prefixLen := int64(-1)
+	prefix := ""
+	if sn != nil {
+		ast.Inspect(sn.Body, func(n ast.Node) bool {
+			switch x := n.(type) {
+			case *ast.AssignStmt:
+				if x.Tok == token.ADD_ASSIGN && len(x.Lhs) == 1 && len(x.Rhs) == 1 {
+					if se, ok := x.Lhs[0].(*ast.SelectorExpr); ok && se.Sel.Name == "pos" && isIdent(se.X, "l") {
+						if v, ok := intLit(x.Rhs[0]); ok {
+							prefixLen = v
+						}
+					}
+				}
+			case *ast.BinaryExpr:
+				if x.Op == token.EQL {
+					if _, ok := x.X.(*ast.SliceExpr); ok {
+						if s, ok := strLit(x.Y); ok {
+							prefix = s
+						}
+					}
+				}
+			}
+			return true
+		})
+	}
+	if prefix != "0x" || prefixLen != int64(len(prefix)) {
+		g.fail("scanNumber: hexadecimal prefix is not tested with == \"0x\" and skipped with l.pos += 2 (prefix %q, skip %d)", prefix, prefixLen)
+		prefix, prefixLen = "0x", 2
+	}
 	g.p("Definition num_sign_set : bstr := %s.\nDefinition num_dot_set : bstr := %s.\nDefinition num_exp_set : bstr := %s.\nDefinition num_hex_prefix : bstr := %s.\n",
-		coqBytes("+-"), coqBytes("."), coqBytes("e"), coqBytes("0x"))
+		coqBytes("+-"), coqBytes("."), coqBytes("e"), coqBytes(prefix))
+	g.p("Definition num_hex_prefix_len : Z := %d%%Z.\n", prefixLen)
 	// lexSoyDoc / lexSoyDocParam: "@param"
 	sd := stringArgs(g.funcDecl(lexRel, "lexSoyDoc"), "HasPrefix", 1)
 	sdl := stringArgs(g.funcDecl(lexRel, "lexSoyDocParam"), "len", 0)
